@@ -1,5 +1,5 @@
 --------------------------- MODULE MCDiagWorkspace ---------------------------
-(* Enumerate (or, with -simulate, sample) every workspace of NFiles files over the given
+(* Enumerate (or, with -simulate, sample) every workspace of n \in NFilesSet files over the given
    import-set size, defect kinds and "missing import" choices, and export the invalid ones as
    cases for harness/reportdrv (mode ws): the driver renders the files, compiles the workspace
    with the real experimental compiler at parallelism 1..16, repeatedly, and compares the
@@ -7,24 +7,24 @@
    compiler (an input, fixed per case).                                                        *)
 EXTENDS DiagWorkspace, TLC, Json
 
-CONSTANTS NFiles, Kinds, MaxImports, AllowSelf, MissingChoices, RevChoices, OnlyCyclic
+CONSTANTS NFilesSet, Kinds, MaxImports, AllowSelf, MissingChoices, RevChoices, OnlyCyclic
 
-VARIABLES ws, rev
-vars == <<ws, rev>>
+VARIABLES ws, rev, nfiles
+vars == <<ws, rev, nfiles>>
 
-Init == ws = <<>> /\ rev \in RevChoices
+Init == ws = <<>> /\ rev \in RevChoices /\ nfiles \in NFilesSet
 
 AddFile ==
-  /\ Len(ws) < NFiles
+  /\ Len(ws) < nfiles
   /\ LET me == Len(ws) + 1
-     IN \E imps \in {s \in SUBSET (1..NFiles) : Cardinality(s) <= MaxImports /\ (AllowSelf \/ me \notin s)} :
+     IN \E imps \in {s \in SUBSET (1..nfiles) : Cardinality(s) <= MaxImports /\ (AllowSelf \/ me \notin s)} :
         \E m \in MissingChoices : \E k \in Kinds :
            ws' = Append(ws, [imports |-> imps, missing |-> m, kind |-> k])
-  /\ UNCHANGED rev
+  /\ UNCHANGED <<rev, nfiles>>
 Next == AddFile
 Spec == Init /\ [][Next]_vars
 
-Complete == Len(ws) = NFiles
+Complete == Len(ws) = nfiles
 
 Case == [kind |-> "ws",
          files |-> [i \in 1..Len(ws) |->
